@@ -47,8 +47,10 @@ def names() -> list[str]:
     return k2.run_python([{"id": 0, "op": "names"}], want_sig=False, nproc=1)["results"][0]["names"]
 
 
-def compile_insns(insn_names: list[str], fmt="READ_STATEMENTS") -> list[dict]:
-    jobs = [{"id": i, "op": "insn", "name": n, "fmt": fmt} for i, n in enumerate(insn_names)]
+def compile_insns(insn_names: list[str], fmt="READ_STATEMENTS", hstart=None) -> list[dict]:
+    """hstart: None = every instruction at temporary counter 0; a number, or a list with one number per instruction = counter at entry"""
+    hs = hstart if isinstance(hstart, list) else [hstart] * len(insn_names)
+    jobs = [{"id": i, "op": "insn", "name": n, "fmt": fmt, "hstart": h} for i, (n, h) in enumerate(zip(insn_names, hs))]
     return k2.run_python(jobs, want_sig=False)["results"]
 
 
